@@ -68,12 +68,17 @@ impl TypeChecker {
         }
 
         // Enforce required fields (those without defaults) are present.
-        for (field_name, info) in fields {
-            if !info.has_default && !provided.contains_key(field_name.as_str()) {
-                self.errors.push(errors::missing_required_constructor_field(
-                    type_name, field_name, call_span,
-                ));
-            }
+        // `fields` is a HashMap: report in name order so the diagnostics are the same in every run.
+        let mut missing: Vec<&String> = fields
+            .iter()
+            .filter(|(field_name, info)| !info.has_default && !provided.contains_key(field_name.as_str()))
+            .map(|(field_name, _)| field_name)
+            .collect();
+        missing.sort();
+        for field_name in missing {
+            self.errors.push(errors::missing_required_constructor_field(
+                type_name, field_name, call_span,
+            ));
         }
     }
 
